@@ -1119,7 +1119,22 @@ func runC20(ctx *Ctx, idx int) {
 			}
 		}
 		optSnap := opt
-		_, err, pv, stack := buildTrie(enc, inKeys, inVals, opt)
+		// every other build hands the options over as a caller-owned slice
+		// (opts...): then the variadic parameter IS the caller's memory
+		var err error
+		var pv interface{}
+		var stack string
+		if (idx+pass)%2 == 0 {
+			_, err, pv, stack = buildTrie(enc, inKeys, inVals, opt)
+		} else {
+			optSlice := []trie.Opt{opt, {}}
+			pv, stack = try(func() { _, err = trie.NewSlimTrie(enc, inKeys, inVals, optSlice...) })
+			if optSlice[0] != optSnap || optSlice[1] != (trie.Opt{}) {
+				viol("option-slice-modified", map[string]interface{}{"input_valid": pass == 0,
+					"before": fmt.Sprintf("%+v", optSnap), "after": fmt.Sprintf("%+v", optSlice[0])})
+			}
+			ctx.Count("builds_with_caller_owned_option_slice", 1)
+		}
 		if pv != nil {
 			viol("build-panic", map[string]interface{}{"panic": fmt.Sprint(pv), "stack": stack, "input_valid": pass == 0})
 			continue
@@ -1210,6 +1225,22 @@ func runC20(ctx *Ctx, idx int) {
 			}
 		}
 		ctx.Count("input_overwrites_checked", 1)
+		// ---- 1c'. bytes handed out by Marshal belong to the caller: later
+		// Marshal calls (of this or of another trie) must not rewrite them
+		if o1, e1 := ld.Marshal(); e1 == nil {
+			keep1 := append([]byte{}, o1...)
+			o2, _ := st0.Marshal()
+			keep2 := append([]byte{}, o2...)
+			o3, _ := ld.Marshal()
+			empty, _ := trie.NewSlimTrie(enc, nil, nil)
+			o4, _ := empty.Marshal()
+			_ = o4
+			if !bytes.Equal(o1, keep1) || !bytes.Equal(o2, keep2) || !bytes.Equal(o3, keep1) {
+				viol("marshal-output-rewritten-by-later-marshal", map[string]interface{}{"layout": layout,
+					"first_intact": bytes.Equal(o1, keep1), "second_intact": bytes.Equal(o2, keep2)})
+			}
+			ctx.Count("marshal_outputs_kept_alive", 1)
+		}
 		// ---- 1c. Marshal output is independent of the trie
 		out, merr := ld.Marshal()
 		if merr == nil {
@@ -1345,11 +1376,11 @@ func init() {
 	})
 	register(&CheckDef{
 		ID: "C20", Level: "exploration",
-		Rule:          "case = (key list, value list, option struct, stream layout current / 0.5.10 / three-section); monitors: (1) snapshots of keys (deep), values, the option struct and the pointees of its pointers compared after NewSlimTrie for an accepted and for a rejected (out-of-order) input; the input buffer overwritten with 0x00 / 0xff / noise after Unmarshal and the Marshal output overwritten likewise, battery digest (lookups, scans, Stat, String, Marshal) and re-Marshal bytes compared before/after; (2) guard pages: the stream lives in an mmap region between PROT_NONE pages, PROT_READ during Unmarshal and PROT_NONE afterwards while the battery runs; key bytes and the string-header array of the key slice live in PROT_READ mappings during build (also for a rejected input); faults are turned into recoverable panics; non-trivial = at least 2 keys; distinct by hash of keys, values and layout",
+		Rule:          "case = (key list, value list, option struct, stream layout current / 0.5.10 / three-section); monitors: (1) snapshots of keys (deep), values, the option struct and the pointees of its pointers compared after NewSlimTrie for an accepted and for a rejected (out-of-order) input, the options handed over both as a single argument and as a caller-owned slice (opts...); several Marshal results of different tries kept alive and compared with their copies after later Marshal calls; the input buffer overwritten with 0x00 / 0xff / noise after Unmarshal and the Marshal output overwritten likewise, battery digest (lookups, scans, Stat, String, Marshal) and re-Marshal bytes compared before/after; (2) guard pages: the stream lives in an mmap region between PROT_NONE pages, PROT_READ during Unmarshal and PROT_NONE afterwards while the battery runs; key bytes and the string-header array of the key slice live in PROT_READ mappings during build (also for a rejected input); faults are turned into recoverable panics; non-trivial = at least 2 keys; distinct by hash of keys, values and layout",
 		NumCases:      c20NumCases,
 		Run:           runC20,
 		MinNontrivial: func(tier string) int { return 200 },
-		Gates: shapeGates("builds_snapshotted", "input_overwrites_checked", "output_overwrites_checked", "guarded_streams", "guarded_key_sets", "layout:current", "layout:0.5.10", "layout:3sec",
+		Gates: shapeGates("builds_snapshotted", "builds_with_caller_owned_option_slice", "marshal_outputs_kept_alive", "input_overwrites_checked", "output_overwrites_checked", "guarded_streams", "guarded_key_sets", "layout:current", "layout:0.5.10", "layout:3sec",
 			"0510_streams_with_prefixes_to_reencode"),
 		Assumptions: []string{"retaining references to key strings is not forbidden by the statement; key memory is only write-protected", "debug.SetPanicOnFault turns SIGSEGV on the guarded mappings into recoverable panics (verified in selftest)"},
 	})
